@@ -124,7 +124,7 @@ def main(args):
     js = import_lib()
     quick = args.tier == "quick"
     ck.rule = ("spec side: TLC builds the tree incrementally (ErrorTree!AddTo never consults an instance) for ALL sequences of <= %d "
-               "errors over 21 paths (length <= 2 through object keys and array indices) x 3 keywords and checks after every "
+               "errors over 31 paths (length <= 2 through object keys -- including keys spelled like nested locations, 'a.b' and 'a[0]' -- and array indices) x 3 keywords and checks after every "
                "step that it refines the declarative meaning (errors at a node, child keys, totals = distinct (path, keyword) "
                "pairs) and is independent of arrival order; every final sequence is replayed with synthetic ValidationErrors. "
                "code side: the real errors of random validations (plus Draft 3 required and propertyNames shapes), in every "
